@@ -5,9 +5,9 @@ wt=$1; v=$2; d=$wt/SEEDED/$v
 cd $wt || exit 2
 git checkout -q -- src; rm -f tests/seeded_demo_*.rs
 cp $d/demo.rs tests/seeded_demo_$v.rs
-echo "== demo without the change"; cargo test --offline --test seeded_demo_$v 2>&1 | grep -E "^test result|error(\[|:)" | head -3
+echo "== demo without the change"; timeout 900 cargo test --offline --test seeded_demo_$v 2>&1 | grep -E "^test result|error(\[|:)" | head -3; echo "status=${PIPESTATUS[0]}"
 git apply $d/patch.diff || { echo "PATCH DOES NOT APPLY"; exit 1; }
-echo "== demo with the change"; cargo test --offline --test seeded_demo_$v 2>&1 | grep -E "^test result|error(\[|:)" | head -3
+echo "== demo with the change"; timeout 900 cargo test --offline --test seeded_demo_$v 2>&1 | grep -E "^test result|error(\[|:)" | head -3; echo "status=${PIPESTATUS[0]}"
 rm -f tests/seeded_demo_$v.rs
-echo "== existing suite with the change"; cargo test --workspace --no-fail-fast --offline 2>&1 | grep -E "^test result|FAILED|failed" | sort | uniq -c | head -12
+echo "== existing suite with the change"; timeout 1800 cargo test --workspace --no-fail-fast --offline 2>&1 | grep -E "^test result|FAILED|failed" | sort | uniq -c | head -12
 git checkout -q -- src
